@@ -266,7 +266,7 @@ pub fn run_scenarios(r: &mut Report, scns: Vec<Scn>, tier: &str) {
     .ok()
     .and_then(|x| x.parse::<u64>().ok())
     .unwrap_or(if thorough { 1500 } else { 45 });
-  let per = Duration::from_secs((total_budget / n_scn as u64).max(if thorough { 30 } else { 4 }));
+  let per = Duration::from_secs((total_budget / n_scn as u64).max(if thorough { 180 } else { 4 }));
   let mut per_scn = vec![];
   let mut total_outcomes = 0usize;
   for sc in &scns {
